@@ -64,7 +64,7 @@ SPECS = {
                           attrs=["data", "NFFT", "sampling", "scale_by_freq", "sides"], init=dict(NFFT=16, sampling=1., scale_by_freq=False)),
 }
 VALUES = {"data": ["r12", "r15", "c12", "c15", "r12c"], "NFFT": [None, "nextpow2", 16, 21, 32], "sampling": [1., 2.5],
-          "window": ["hann", "hamming", "rectangular"], "lag": [4, 5], "detrend": [None, "mean"],
+          "window": ["hann", "hamming", "rectangular"], "lag": [4, 5, 9], "detrend": [None, "mean"],
           "scale_by_freq": [False, True], "sides": ["onesided", "twosided", "centerdc", "default"], "ma_order": [1, 2]}
 ARO = {"parma": [1, 2], "pma": [4, 5], "pmusic": [3, 4], "pev": [3, 4]}
 CLASSES = list(SPECS)
